@@ -2,8 +2,9 @@
 
 package contracts_test
 
-// C01 — a v2 contract revised AND renewed in the same block, on a real chain.
+// C01 — several changes of one contract in one block, on a real chain.
 //
+// Cases 0/1: a v2 contract revised AND renewed in the same block.
 // Consensus allows a revision and a renewal of one contract to be mined together (the
 // renewal's parent is the element in the accumulator, the revision is a separate
 // transaction); core's MidState merges both into ONE V2FileContractElementDiff carrying
@@ -13,6 +14,25 @@ package contracts_test
 // (check_build); the monitors state the property directly: after the block the contract is
 // renewed and its revision confirmed, after the reorg it is active with the revision
 // unconfirmed again.
+//
+// Cases 2/3: a v1 contract formed AND revised in the same block (the formation transaction and
+// the host's latest revision, number 1, are both in the pool when the block is mined).  core
+// folds the revision into the CREATED element (Created = true, the element's contract is the
+// revised one, Revision = nil).  Case 2 connects the block: the contract is active and its
+// revision — which is on chain — is reported confirmed (otherwise the host broadcasts it again).
+// Case 3 disconnects it: unconfirmed, revision unconfirmed.
+//
+// Cases 4/5: a v1 contract revised AND proven in the same block.  Consensus allows that in exactly
+// one block, the one at the height of the window start (a revision needs childHeight <=
+// WindowStart, a storage proof childHeight >= WindowStart), when somebody submits the proof one
+// block before the host does (the contract here is empty, so anybody can).  core merges both into
+// one diff (Revision != nil, Resolved).  Case 4 connects the block: the contract is successful
+// and the revision confirmed (before fixes/C01-v1-revised-and-proven-same-block.patch the proof
+// was dropped and the contract stayed active for good).  Case 5 disconnects it: the contract is
+// active again — but core has overwritten the diff's element with the REVISED contract
+// (resolveFileContractElement), so the revision number the chain held before the block is not
+// in the diff and the host keeps reporting the reverted revision as confirmed: a recorded
+// finding (v1-revision-and-proof-same-block-revert-keeps-revision), not repairable inside hostd.
 
 import (
 	"context"
@@ -213,6 +233,280 @@ func TestVerifC01SameBlock(t *testing.T) {
 		if c.Status != contracts.V2ContractStatusActive || c.RevisionConfirmed {
 			em.Monitor("same-block-revision-and-resolution-revert-not-undone",
 				fmt.Sprintf("status %v (want active), revision confirmed %v (want false)", c.Status, c.RevisionConfirmed))
+		}
+	}
+	vfSameBlockV1(t, em, log)
+	vfSameBlockV1Proof(t, em, log)
+}
+
+// vfSameBlockV1: cases 2 and 3 on a v1 network
+func vfSameBlockV1(t *testing.T, em *verifEmitter, log *zap.Logger) {
+	if em.Skip(2) && em.Skip(3) {
+		return
+	}
+	renterKey, hostKey := types.GeneratePrivateKey(), types.GeneratePrivateKey()
+	network, genesis := testutil.V1Network()
+	node := testutil.NewHostNode(t, hostKey, network, genesis, log)
+	fork := testutil.NewConsensusNode(t, network, genesis, log)
+	testutil.MineAndSync(t, node, node.Wallet.Address(), int(network.MaturityDelay+5))
+	cm, com := node.Chain, node.Contracts
+
+	// the fork node follows the shared chain up to here
+	forkHeight := cm.Tip().Height
+	var shared []types.Block
+	for h := uint64(1); h <= forkHeight; h++ {
+		index, _ := cm.BestIndex(h)
+		b, ok := cm.Block(index.ID)
+		if !ok {
+			t.Fatalf("missing block at height %d", h)
+		}
+		shared = append(shared, b)
+	}
+	if err := fork.Chain.AddBlocks(shared); err != nil {
+		t.Fatal(err)
+	}
+
+	// the formation transaction goes to the pool; the host's latest revision is number 1 ...
+	rev := formContract(t, cm, com, node.Wallet, node.Syncer, node.Settings, renterKey, hostKey, types.Siacoins(10), types.Siacoins(20), 20, true)
+	contractID := rev.Revision.ParentID
+	// ... and is broadcast right away (by the renter, say)
+	revisionTxn := types.Transaction{
+		FileContractRevisions: []types.FileContractRevision{rev.Revision},
+		Signatures:            rev.Signatures(),
+	}
+	fee := types.Siacoins(1)
+	revisionTxn.MinerFees = append(revisionTxn.MinerFees, fee)
+	toSign, err := node.Wallet.FundTransaction(&revisionTxn, fee, true)
+	if err != nil {
+		t.Fatal(err)
+	}
+	node.Wallet.SignTransaction(&revisionTxn, toSign, types.CoveredFields{WholeTransaction: true})
+	if _, err := cm.AddPoolTransactions(append(cm.UnconfirmedParents(revisionTxn), revisionTxn)); err != nil {
+		t.Fatal("failed to add revision to pool:", err)
+	}
+
+	// what the store shows, as the StateChanges of the single created diff of contract 1 (element
+	// revision 1): confirmed / revised to the revision number the direction records
+	changes := func(revert bool) string {
+		c, err := com.Contract(contractID)
+		if err != nil {
+			t.Fatal(err)
+		}
+		var confirmed, revised []string
+		if c.FormationConfirmed != revert {
+			confirmed = append(confirmed, "1")
+		}
+		// the stored revision is number 1: reported confirmed iff the confirmed revision number is 1
+		if !revert && c.RevisionConfirmed {
+			revised = append(revised, "(1, 1)")
+		} else if revert && !c.RevisionConfirmed {
+			revised = append(revised, "(1, 0)")
+		}
+		return fmt.Sprintf("(Some (mkCh %s %s [] [] [] [] [] [] []))", coqList(confirmed), coqList(revised))
+	}
+
+	// case 2: one block carries the formation and the revision
+	if !em.Skip(2) {
+		oldTip := cm.Tip()
+		testutil.MineAndSync(t, node, types.VoidAddress, 1)
+		if n := len(cm.PoolTransactions()); n != 0 {
+			t.Fatalf("setup: %d transactions left in the pool", n)
+		}
+		c, err := com.Contract(contractID)
+		if err != nil {
+			t.Fatal(err)
+		}
+		em.curDesc = "formation and revision of one v1 contract connected in one block"
+		em.FunCase(2, "(false, [mkFD 1 true true 1 None false false false], [])", changes(false), true)
+		em.Count("same-block:v1-formation+revision:apply")
+		if c.Status != contracts.ContractStatusActive || !c.FormationConfirmed || !c.RevisionConfirmed {
+			em.Monitor("same-block-formation-and-revision-not-both-recorded",
+				fmt.Sprintf("block %v forms %v and confirms its revision %d: status %v formation confirmed %v (want active, true), revision confirmed %v (want true)",
+					oldTip.Height+1, contractID, rev.Revision.RevisionNumber, c.Status, c.FormationConfirmed, c.RevisionConfirmed))
+		}
+	}
+
+	// case 3: that block is disconnected (the fork has empty blocks)
+	if !em.Skip(3) && !em.Skip(2) {
+		testutil.MineBlocks(t, fork, types.VoidAddress, 2)
+		var alt []types.Block
+		for h := forkHeight + 1; h <= fork.Chain.Tip().Height; h++ {
+			index, _ := fork.Chain.BestIndex(h)
+			b, _ := fork.Chain.Block(index.ID)
+			alt = append(alt, b)
+		}
+		if err := cm.AddBlocks(alt); err != nil {
+			t.Fatal(err)
+		}
+		testutil.WaitForSync(t, node.Chain, node.Indexer)
+		if cm.Tip() != fork.Chain.Tip() {
+			t.Fatalf("setup: no reorg: %v != %v", cm.Tip(), fork.Chain.Tip())
+		}
+		c, err := com.Contract(contractID)
+		if err != nil {
+			t.Fatal(err)
+		}
+		em.curDesc = "the block forming and revising one v1 contract disconnected"
+		em.FunCase(3, "(true, [mkFD 1 true true 1 None false false false], [])", changes(true), true)
+		em.Count("same-block:v1-formation+revision:revert")
+		if c.FormationConfirmed || c.RevisionConfirmed || (c.Status != contracts.ContractStatusPending && c.Status != contracts.ContractStatusRejected) {
+			em.Monitor("same-block-formation-and-revision-revert-not-undone",
+				fmt.Sprintf("status %v (want pending), formation confirmed %v (want false), revision confirmed %v (want false)", c.Status, c.FormationConfirmed, c.RevisionConfirmed))
+		}
+	}
+}
+
+// vfSameBlockV1Proof: cases 4 and 5 on a v1 network
+func vfSameBlockV1Proof(t *testing.T, em *verifEmitter, log *zap.Logger) {
+	if em.Skip(4) && em.Skip(5) {
+		return
+	}
+	renterKey, hostKey := types.GeneratePrivateKey(), types.GeneratePrivateKey()
+	network, genesis := testutil.V1Network()
+	node := testutil.NewHostNode(t, hostKey, network, genesis, log)
+	fork := testutil.NewConsensusNode(t, network, genesis, log)
+	testutil.MineAndSync(t, node, node.Wallet.Address(), int(network.MaturityDelay+5))
+	cm, com := node.Chain, node.Contracts
+
+	rev := formContract(t, cm, com, node.Wallet, node.Syncer, node.Settings, renterKey, hostKey, types.Siacoins(10), types.Siacoins(20), 20, true)
+	contractID := rev.Revision.ParentID
+	testutil.MineAndSync(t, node, types.VoidAddress, 1)
+	if c, err := com.Contract(contractID); err != nil {
+		t.Fatal(err)
+	} else if c.Status != contracts.ContractStatusActive {
+		t.Fatalf("setup: contract not confirmed: %v", c.Status)
+	}
+	// the host's latest revision is number 2 (the chain has the formation, revision 0)
+	rev.Revision.RevisionNumber = 2
+	sigHash := hashRevision(rev.Revision)
+	rev.HostSignature = hostKey.SignHash(sigHash)
+	rev.RenterSignature = renterKey.SignHash(sigHash)
+	updater, err := com.ReviseContract(contractID)
+	if err != nil {
+		t.Fatal(err)
+	}
+	if err := updater.Commit(rev, contracts.Usage{}); err != nil {
+		t.Fatal(err)
+	}
+	updater.Close()
+
+	// empty blocks up to the block before the window start: whatever the host broadcasts in the
+	// meantime stays in the pool
+	ws := rev.Revision.WindowStart
+	for cm.Tip().Height < ws-1 {
+		if err := cm.AddBlocks([]types.Block{mineEmptyBlock(cm.TipState(), types.VoidAddress)}); err != nil {
+			t.Fatal(err)
+		}
+		testutil.WaitForSync(t, node.Chain, node.Indexer)
+	}
+	forkHeight := cm.Tip().Height
+	var shared []types.Block
+	for h := uint64(1); h <= forkHeight; h++ {
+		index, _ := cm.BestIndex(h)
+		b, ok := cm.Block(index.ID)
+		if !ok {
+			t.Fatalf("missing block at height %d", h)
+		}
+		shared = append(shared, b)
+	}
+	if err := fork.Chain.AddBlocks(shared); err != nil {
+		t.Fatal(err)
+	}
+
+	// the revision is in the pool (the host broadcasts it when the window comes close; otherwise
+	// it is broadcast here) ...
+	inPool := false
+	for _, txn := range cm.PoolTransactions() {
+		for _, fcr := range txn.FileContractRevisions {
+			inPool = inPool || fcr.ParentID == contractID
+		}
+	}
+	if !inPool {
+		revisionTxn := types.Transaction{FileContractRevisions: []types.FileContractRevision{rev.Revision}, Signatures: rev.Signatures()}
+		fee := types.Siacoins(1)
+		revisionTxn.MinerFees = append(revisionTxn.MinerFees, fee)
+		toSign, err := node.Wallet.FundTransaction(&revisionTxn, fee, true)
+		if err != nil {
+			t.Fatal(err)
+		}
+		node.Wallet.SignTransaction(&revisionTxn, toSign, types.CoveredFields{WholeTransaction: true})
+		if _, err := cm.AddPoolTransactions(append(cm.UnconfirmedParents(revisionTxn), revisionTxn)); err != nil {
+			t.Fatal("failed to add revision to pool:", err)
+		}
+	}
+	em.Count(fmt.Sprintf("same-block:v1-revision+proof:revision-broadcast-by-host=%v", inPool))
+	// ... and so is a storage proof, one block before the host would submit its own
+	proofTxn := types.Transaction{StorageProofs: []types.StorageProof{{ParentID: contractID}}}
+	if _, err := cm.AddPoolTransactions([]types.Transaction{proofTxn}); err != nil {
+		t.Fatal("failed to add storage proof to pool:", err)
+	}
+
+	// what the store shows, as the StateChanges of the single diff of contract 1.  The diff core
+	// produces carries the REVISED contract as its element (revision 2) next to Revision = 2.
+	changes := func(revert bool) string {
+		c, err := com.Contract(contractID)
+		if err != nil {
+			t.Fatal(err)
+		}
+		var revised, successful []string
+		if c.RevisionConfirmed { // the stored revision is number 2
+			revised = append(revised, "(1, 2)")
+		}
+		if (c.Status == contracts.ContractStatusSuccessful) != revert {
+			successful = append(successful, "1")
+		}
+		return fmt.Sprintf("(Some (mkCh [] %s %s [] [] [] [] [] []))", coqList(revised), coqList(successful))
+	}
+
+	// case 4: the block at the height of the window start carries the revision and the proof
+	if !em.Skip(4) {
+		testutil.MineAndSync(t, node, types.VoidAddress, 1)
+		if n := len(cm.PoolTransactions()); n != 0 {
+			t.Fatalf("setup: %d transactions left in the pool", n)
+		}
+		c, err := com.Contract(contractID)
+		if err != nil {
+			t.Fatal(err)
+		}
+		em.curDesc = "revision and storage proof of one v1 contract connected in one block"
+		em.FunCase(4, "(false, [mkFD 1 true false 2 (Some 2) true true false], [])", changes(false), true)
+		em.Count("same-block:v1-revision+proof:apply")
+		if c.Status != contracts.ContractStatusSuccessful || !c.RevisionConfirmed || c.ResolutionHeight != ws {
+			em.Monitor("same-block-v1-revision-and-proof-not-both-recorded",
+				fmt.Sprintf("block %d revises and proves %v: status %v (want successful), revision confirmed %v (want true), resolution height %d (want %d)",
+					ws, contractID, c.Status, c.RevisionConfirmed, c.ResolutionHeight, ws))
+		}
+	}
+
+	// case 5: that block is disconnected (the fork has empty blocks)
+	if !em.Skip(5) && !em.Skip(4) {
+		testutil.MineBlocks(t, fork, types.VoidAddress, 2)
+		var alt []types.Block
+		for h := forkHeight + 1; h <= fork.Chain.Tip().Height; h++ {
+			index, _ := fork.Chain.BestIndex(h)
+			b, _ := fork.Chain.Block(index.ID)
+			alt = append(alt, b)
+		}
+		if err := cm.AddBlocks(alt); err != nil {
+			t.Fatal(err)
+		}
+		testutil.WaitForSync(t, node.Chain, node.Indexer)
+		if cm.Tip() != fork.Chain.Tip() {
+			t.Fatalf("setup: no reorg: %v != %v", cm.Tip(), fork.Chain.Tip())
+		}
+		c, err := com.Contract(contractID)
+		if err != nil {
+			t.Fatal(err)
+		}
+		em.curDesc = "the block revising and proving one v1 contract disconnected"
+		em.FunCase(5, "(true, [mkFD 1 true false 2 (Some 2) true true false], [])", changes(true), true)
+		em.Count("same-block:v1-revision+proof:revert")
+		if c.Status != contracts.ContractStatusActive || c.ResolutionHeight != 0 {
+			em.Monitor("same-block-v1-revision-and-proof-revert-not-undone",
+				fmt.Sprintf("status %v (want active), resolution height %d (want 0)", c.Status, c.ResolutionHeight))
+		} else if c.RevisionConfirmed {
+			em.Monitor("v1-revision-and-proof-same-block-revert-keeps-revision",
+				fmt.Sprintf("the block revising %v to revision 2 and proving it was disconnected, the best chain holds revision 0: revision confirmed %v (want false)", contractID, c.RevisionConfirmed))
 		}
 	}
 }
